@@ -133,9 +133,13 @@ def run(ctx: Ctx):
                     df = pd.DataFrame({"A": ser, "a": [float(k) for k in range(7)]})
                 except Exception:
                     continue
-                rp = {"kind": "dtypes-nulls", "text_dtype": t, "A": vals, "output": out}
-                routes = {"pandas": lambda: model_matrix("A + a", df, output=out),
-                          "narwhals/pandas": lambda: NarwhalsMaterializer(df).get_model_matrix("A + a", output=out)}
+                # the null rows are removed (default) or, when the caller asks to keep them, carry no level at all: zeros in every indicator
+                na = rng.choice(["drop", "ignore"])
+                if na == "ignore":
+                    keep = list(range(7))
+                rp = {"kind": "dtypes-nulls", "text_dtype": t, "A": vals, "output": out, "na_action": na}
+                routes = {"pandas": lambda: model_matrix("A + a", df, output=out, na_action=na),
+                          "narwhals/pandas": lambda: NarwhalsMaterializer(df).get_model_matrix("A + a", output=out, na_action=na)}
                 for route, fn in routes.items():
                     ctx.oracle_runs += 1
                     try:
